@@ -402,7 +402,12 @@ impl Prop for C14 {
         });
         let game = gamedig::GAMES.get(id).unwrap();
         let golden = crate::golden::port(id).unwrap_or(game.default_port);
-        let explicit = 1024 + t.draw(CFG, 60_000) as u16;
+        // (the given port is the given port: now and then 0 or 65535)
+        let explicit = match t.draw(CFG, 10) {
+            0 => 0,
+            1 => 65_535,
+            _ => 1024 + t.draw(CFG, 60_000) as u16,
+        };
         let port = port_given.then_some(explicit);
         // the host lives on the port the caller means: the given one, else the game's documented default;
         // a Minecraft host additionally answers Bedrock on the Bedrock default port when no port is given
